@@ -1,3 +1,5 @@
-void h_ctor(void) { BarnettSmartVTMF_dlog *self; ios_t *in; unsigned long f, g; _Bool c, p; BarnettSmartVTMF_dlog__ctor_stream(self, in, f, g, c, p); }
-void h_ctor_qr(void) { BarnettSmartVTMF_dlog_GroupQR *self; ios_t *in; unsigned long f, e; BarnettSmartVTMF_dlog_GroupQR__ctor_stream(self, in, f, e); }
+void h_ctor(void) { BarnettSmartVTMF_dlog *self; ios_t *in; unsigned long f, g; _Bool c, p; BarnettSmartVTMF_dlog__ctor_stream(self, in, f, g, c, p);
+  __CPROVER_assert(__tmcg_thrown != 0, "REACHABILITY-CANARY (must fail): a construction without exception exists"); }
+void h_ctor_qr(void) { BarnettSmartVTMF_dlog_GroupQR *self; ios_t *in; unsigned long f, e; BarnettSmartVTMF_dlog_GroupQR__ctor_stream(self, in, f, e);
+  __CPROVER_assert(__tmcg_thrown != 0, "REACHABILITY-CANARY (must fail): a construction without exception exists"); }
 void h_publish(void) { BarnettSmartVTMF_dlog *self; ios_t *out; BarnettSmartVTMF_dlog__PublishGroup(self, out); }
